@@ -203,6 +203,10 @@ class Indicator(ABC):
 
     def calculate_index(self, start_index: int, end_index: Optional[int] = None):
         """Calculate the TA values, will calculate a index range the Candles, will re-calculate"""
+        if start_index < 0:
+            start_index += len(self.candles)
+        if end_index is not None and end_index < 0:
+            end_index += len(self.candles)
         end_index = end_index if end_index else start_index + 1
 
         self._calculate_sub_indicators(True, start_index, end_index)
@@ -301,13 +305,16 @@ class Indicator(ABC):
             index if index is not None else self._active_index,
         )
 
+    def _helper_names(self) -> set:
+        """Names of this indicator and of its sub and managed indicators, at any depth"""
+        names = {self.name}
+        for indicator in list(self.sub_indicators.values()) + list(self.managed_indicators.values()):
+            names |= indicator._helper_names()
+        return names
+
     def purge(self):
         """Remove this indicator value from all Candles"""
-        self._candles.purge(
-            {self.name}
-            | {indicator.name for indicator in self.sub_indicators.values()}
-            | {indicator.name for indicator in self.managed_indicators.values()}
-        )
+        self._candles.purge(self._helper_names())
 
     def recalculate(self):
         """Re-calculate this indicator value for all Candles"""
